@@ -263,6 +263,18 @@ def check_case(case):
                     viols.append(('extrema:input-modified', '%s: the signal array was changed' % tag))
                 for m_ in _holder.swap((locs, mags), 'get_padded_extrema ' + tag):
                     viols.append(('earlier-result-changed', m_))
+                if pad in (0, 2) and N >= 3:
+                    # the same samples as a strided view (one column of a two-column array, every second sample of a
+                    # longer one): the memory layout of the input is not part of the question
+                    for vname, view in (('column view', np.c_[x_in, x_in[::-1]][:, 0]), ('every-second-sample view', np.repeat(x_in, 2)[::2])):
+                        try:
+                            l2, m2 = get_padded_extrema(view, pad_width=pad, mode=xmode, parabolic_extrema=parabolic)
+                            same_ = (l2 is None and locs is None) or (l2 is not None and locs is not None and
+                                                                      np.array_equal(np.asarray(l2), np.asarray(locs)) and np.array_equal(np.asarray(m2), np.asarray(mags)))
+                            if not same_:
+                                viols.append(('extrema:layout' + (':parabolic' if parabolic else ''), '%s: a %s of the same samples gives other extrema' % (tag, vname)))
+                        except Exception as e:
+                            viols.append(('extrema:layout:raise:%s' % type(e).__name__, '%s: a %s raised %r' % (tag, vname, e)))
                 bad = check_extrema_result(x, L0, M0, locs, mags, pad, parabolic)
                 if bad:
                     viols.append((bad[0] + (':parabolic' if parabolic else ''), '%s: %s' % (tag, bad[1])))
